@@ -1221,6 +1221,10 @@ func (c *specCtx) call(n *SCall) (Val, types.Type) {
 			c.fail("streamAt needs an io.Reader value")
 		}
 		return scalar(tb.App("stream", SInt, readerKey(tb, v), i.T[0])), untypedInt
+	case "flagset":
+		// flagset(&x.f): the ghost state of an atomic flag (polycry atomic.Bool)
+		v, _ := arg(0)
+		return scalar(tb.Select(c.ghostArr("aflag", SArrB), c.e.mutexRef(v))), types.Typ[types.Bool]
 	case "held":
 		// held(&x.mtx): the ghost lock state of a mutex
 		v, _ := arg(0)
